@@ -66,19 +66,19 @@ func (rc c11Reader) name() string {
 }
 
 type c11Out struct {
-	Label     string // reader package a panic belongs to (from the full stack)
-	Detected  string // reader type that produced the values (for auto: what detection chose)
-	Values    int
-	Err       string
-	Panic     string // message
-	PanicSig  string // innermost repo frame + message without numbers
-	Stack     string
-	Timeout   bool
-	Alloc     uint64
-	Walk      string // first structural inconsistency found by the harness walk
-	WalkVal   string
-	BadLeaves int
-	Walked    int
+	Label      string // reader package a panic belongs to (from the full stack)
+	Detected   string // reader type that produced the values (for auto: what detection chose)
+	Values     int
+	Err        string
+	Panic      string // message
+	PanicSig   string // innermost repo frame + message without numbers
+	Stack      string
+	Timeout    bool
+	Alloc      uint64
+	Walk       string // first structural inconsistency found by the harness walk
+	WalkVal    string
+	BadLeaves  int
+	Walked     int
 	Leaked     int
 	LeakSample string
 }
